@@ -152,6 +152,7 @@ def step (s : St) (toks : List String) : St × String :=
   | "log" :: ms => (s, if ms.isEmpty then "bad-op" else logOp ms)
   | ["m", tok] => (s ++ [tok], "queued")                  -- same as `log`, one message per op (shrinks better)
   | ["run"] => ([], if s.isEmpty then "bad-op" else logOp s)
+  | ["runmod"] => ([], if s.isEmpty then "bad-op" else logOp s)   -- through marbl.Modifier: same frames, ids canonicalised by the harness
   | _ => (s, "bad-op")
 
 end Martian.Drv.C19
